@@ -17,7 +17,7 @@ ASSUMPTIONS = ['pandas: ffill/bfill(limit), fillna(value, limit), boolean-mask s
                'sorted index, concat(axis=1) over one index behave as the reference functions of PygModel/Fill.lean define (sampled)',
                'a Series is modelled as a one-column frame; a numpy array as column values behind a RangeIndex',
                'float values are exact multiples of 1/4; dtype changes, axis=1, interpolation methods, pad, date methods, '
-               'nona(value != nan) are not modelled; limit=0 only on non-empty objects',
+               'nona(value != nan) are not modelled; limit=0 (outside the quantifier) is not generated',
                'input immutability is observed by snapshot on the implementation, not proved']
 S = 4
 METHODS = ['ffill', 'bfill', 'backfill', 'ffill_na', 'ffill_0', 'fnna', 'nona', 'c:0', 'c:6', 'c:-3', 'c:4']
@@ -149,7 +149,7 @@ def generate(rng, tier):
             yield dict(tag='nona-%s/%s' % (kind, edge), lines=['(fill nona-%s %s %s)' % (kind, enc_obj(kind, x), edge)])
             continue
         ms, sp = rand_methods(rng)
-        lim = rand_limit(rng, allow0=n > 0 and kind != 'df' and kind != 'a2')
+        lim = rand_limit(rng, allow0=False)   # limit=0 is outside the property's quantifier (pandas rejects it only on non-empty objects)
         tag = 'fillna-%s/%s/%s' % (kind, '+'.join(m.split(':')[0] for m in ms), 'lim' if lim != 'N' else 'nolim')
         yield dict(tag=tag, lines=['(fill fillna-%s %s %s %s)' % (kind, enc_obj(kind, x), enc_methods(ms, sp), lim)])
     if rng.random() < 2:   # method = None / [] returns the input
